@@ -31,6 +31,9 @@ type c05Job struct {
 	// nLadder: the first nLadder paths (all step kinds, no exhaustive filter atoms) are also
 	// explored in accessor mode
 	nLadder int
+	// deep: indices of the paths (single steps, $[?(atom)] for the reduced atoms) whose long
+	// histories are explored with default pool answers
+	deep []int
 }
 
 func newC05(tier string) run.Job {
@@ -61,6 +64,15 @@ func newC05(tier string) run.Job {
 	for _, s := range gen.SigmaFuncFilters() {
 		add(gen.P('$', s))
 	}
+	reduced := map[string]bool{}
+	for _, q := range gen.ReducedAtoms() {
+		reduced[gen.Render(gen.P('$', gen.Filter(q)), nil).Text] = true
+	}
+	for pi, p := range j.paths {
+		if (pi < j.nLadder && len(p.Steps) == 1 && len(p.Funcs) <= 1) || reduced[gen.Render(p, nil).Text] {
+			j.deep = append(j.deep, pi)
+		}
+	}
 	j.x1, _ = jsonpath.Parse(`$..*[?(@.a)]`)
 	j.x2, _ = jsonpath.Parse(`$.y.*`)
 	j.xdoc = decodeDoc(c05XDoc, modeFloat)
@@ -73,14 +85,22 @@ func newC05(tier string) run.Job {
 }
 
 // units: every path in plain mode, then the ladder paths again in accessor mode
-func (j *c05Job) NumUnits() int { return len(j.paths) + j.nLadder }
-func (j *c05Job) Describe(i int) map[string]interface{} {
-	k := i
-	if i >= len(j.paths) {
-		k = i - len(j.paths)
+func (j *c05Job) NumUnits() int { return len(j.paths) + j.nLadder + len(j.deep) }
+
+// unit decodes a unit number: path index, accessor mode, long-history unit
+func (j *c05Job) unit(i int) (pi int, acc, deep bool) {
+	switch {
+	case i < len(j.paths):
+		return i, false, false
+	case i < len(j.paths)+j.nLadder:
+		return i - len(j.paths), true, false
 	}
+	return j.deep[i-len(j.paths)-j.nLadder], false, true
+}
+func (j *c05Job) Describe(i int) map[string]interface{} {
+	k, acc, deep := j.unit(i)
 	t := gen.Render(j.paths[k], nil).Text
-	return map[string]interface{}{"unit": i, "path": t, "accessor": i >= len(j.paths), "sig": "path:" + t}
+	return map[string]interface{}{"unit": i, "path": t, "accessor": acc, "long_histories": deep, "sig": "path:" + t}
 }
 
 func outcomeString(res impl.CallResult) string {
@@ -179,6 +199,36 @@ const c05W = -2 // overwrite every element of the most recent result with a sent
 
 var c05XDoc = `{"z":[{"a":1,"b":{"c":[1,2,3]}},{"a":2}],"y":{"q":1,"r":2,"s":3,"t":4}}`
 
+// c05M encodes "the caller edits document object d in place so that it equals document e"
+// (same shape: the root object keeps its identity and its length)
+const c05MBase = 10
+
+func c05M(d, e int) int { return -(c05MBase + d*100000 + e) }
+func c05IsM(op int) (d, e int, ok bool) {
+	if op > -c05MBase {
+		return 0, 0, false
+	}
+	v := -op - c05MBase
+	return v / 100000, v % 100000, true
+}
+
+// c05EditInPlace makes the object obj (currently some document of the same shape) equal to target
+// without replacing the root container.
+func c05EditInPlace(obj, target interface{}) {
+	t := gen.Clone(target)
+	switch o := obj.(type) {
+	case map[string]interface{}:
+		for k := range o {
+			delete(o, k)
+		}
+		for k, v := range t.(map[string]interface{}) {
+			o[k] = v
+		}
+	case []interface{}:
+		copy(o, t.([]interface{}))
+	}
+}
+
 func c05OpString(op int, text []string) string {
 	switch op {
 	case c05X:
@@ -186,7 +236,10 @@ func c05OpString(op int, text []string) string {
 	case c05W:
 		return "W(scribble on last result)"
 	}
-	return "f(" + text[op] + ")"
+	if d, e, ok := c05IsM(op); ok {
+		return "M(the caller edits the object of " + text[d] + " in place to " + text[e] + ")"
+	}
+	return "f(object " + text[op] + ")"
 }
 
 // c05Run executes one history with the given pool-choice prefix on fresh objects and checks it.
@@ -204,6 +257,14 @@ func (j *c05Job) c05Run(pathText string, acc bool, hist []int, refs map[int]stri
 			return
 		}
 		docs := map[int]interface{}{}
+		cur := map[int]int{} // object -> the document it currently equals
+		obj := func(d int) interface{} {
+			if _, have := docs[d]; !have {
+				docs[d] = gen.Clone(j.docs[d])
+				cur[d] = d
+			}
+			return docs[d]
+		}
 		type kept struct {
 			slice []interface{}
 			want  string
@@ -217,8 +278,8 @@ func (j *c05Job) c05Run(pathText string, acc bool, hist []int, refs map[int]stri
 				}
 			}
 			for di, d := range docs {
-				if !sameJSON(d, j.docs[di]) {
-					ok, detail = false, fmt.Sprintf("document %s was modified to %s", j.text[di], showVal(d))
+				if !sameJSON(d, j.docs[cur[di]]) {
+					ok, detail = false, fmt.Sprintf("document %s was modified to %s", j.text[cur[di]], showVal(d))
 					return false
 				}
 			}
@@ -238,12 +299,19 @@ func (j *c05Job) c05Run(pathText string, acc bool, hist []int, refs map[int]stri
 					last.want = showAcc(last.slice)
 				}
 			default:
-				if _, have := docs[op]; !have {
-					docs[op] = gen.Clone(j.docs[op])
+				if d, e, isM := c05IsM(op); isM {
+					c05EditInPlace(obj(d), j.docs[e])
+					cur[d] = e
+					// earlier results may alias containers the caller has just edited: their
+					// expected rendering is re-taken after the edit
+					for ri := range results {
+						results[ri].want = showAcc(results[ri].slice)
+					}
+					break
 				}
-				res := impl.Call(pr.F, docs[op])
-				if got := outcomeString(res); got != refs[op] {
-					ok, detail = false, fmt.Sprintf("call #%d f(%s) returned %s; a fresh Retrieve returns %s", k, j.text[op], got, refs[op])
+				res := impl.Call(pr.F, obj(op))
+				if got := outcomeString(res); got != refs[cur[op]] {
+					ok, detail = false, fmt.Sprintf("call #%d f(%s) returned %s; a fresh Retrieve returns %s", k, j.text[cur[op]], got, refs[cur[op]])
 					return
 				}
 				if res.ErrType == "" {
@@ -262,11 +330,7 @@ func (j *c05Job) c05Run(pathText string, acc bool, hist []int, refs map[int]stri
 }
 
 func (j *c05Job) RunUnit(i int, c *run.Ctx) {
-	acc := i >= len(j.paths)
-	pi := i
-	if acc {
-		pi = i - len(j.paths)
-	}
+	pi, acc, deep := j.unit(i)
 	p := j.paths[pi]
 	pathText := gen.Render(p, nil).Text
 	cfg := &j.env.Cfg
@@ -288,6 +352,13 @@ func (j *c05Job) RunUnit(i int, c *run.Ctx) {
 	if acc {
 		depth-- // accessor mode shares everything but the final wrapping: shorter histories
 	}
+	if deep {
+		// long histories: 3 documents + X, default pool answers (most recently released buffer first)
+		nDocs, depth, bound = 3, 6, 0
+		if j.tier == "thorough" {
+			depth = 8
+		}
+	}
 	chosen := j.chooseDocs(pr.F, nDocs)
 	// reference outcomes: fresh Retrieve (new Parse) on a deep copy, before any history starts
 	refs := map[int]string{}
@@ -296,6 +367,20 @@ func (j *c05Job) RunUnit(i int, c *run.Ctx) {
 		refs[di] = outcomeString(impl.Call(fp.F, gen.Clone(j.docs[di])))
 	}
 	alphabet := append(append([]int{}, chosen...), c05X, c05W)
+	if deep {
+		alphabet = append(append([]int{}, chosen...), c05X)
+	}
+	// in-place edits between the first two chosen documents of one shape (root kind and length
+	// kept), both directions
+	for a := 0; a < len(chosen) && len(alphabet) == len(chosen)+2 && !deep; a++ {
+		for b := a + 1; b < len(chosen); b++ {
+			da, db := j.docs[chosen[a]], j.docs[chosen[b]]
+			if docShape(da) == docShape(db) && isContainer(da) {
+				alphabet = append(alphabet, c05M(chosen[a], chosen[b]), c05M(chosen[b], chosen[a]))
+				break
+			}
+		}
+	}
 	violated := false
 	exploreHistory := func(hist []int) {
 		st := sched.Explore(bound, 20000, func(prefix []int) *sched.Exec {
@@ -331,7 +416,11 @@ func (j *c05Job) RunUnit(i int, c *run.Ctx) {
 	// histories by increasing length (the first counterexample is a shortest one); a history must
 	// contain a call, and the longest histories end with a call (a trailing X or W could not be
 	// observed by anything after it)
-	for length := 1; length <= depth && !violated; length++ {
+	first := 1
+	if deep {
+		first = 4 // shorter histories are covered by the unit of the same path above
+	}
+	for length := first; length <= depth && !violated; length++ {
 		var rec func(hist []int)
 		rec = func(hist []int) {
 			if violated {
@@ -345,6 +434,24 @@ func (j *c05Job) RunUnit(i int, c *run.Ctx) {
 					}
 				}
 				last := hist[len(hist)-1]
+				// an edit is explored only after a call on that object (otherwise it is just another document)
+				nEdits := 0
+				for k, op := range hist {
+					if d, _, isM := c05IsM(op); isM {
+						called := false
+						for _, prev := range hist[:k] {
+							if prev == d {
+								called = true
+							}
+						}
+						// one edit per history, and the last operation is a call on the edited object
+						// (the only operation that can observe a stale answer)
+						if !called || k == len(hist)-1 || nEdits > 0 || last != d {
+							return
+						}
+						nEdits++
+					}
+				}
 				if hasCall && last != c05W && !(length == depth && last == c05X) {
 					exploreHistory(hist)
 				}
@@ -377,8 +484,8 @@ func init() {
 			"histories longer than the bound are not explored; state hidden inside the parsed tree is observed only through call results",
 		},
 		Bounds: map[string]string{
-			"quick":    "paths: <=2 steps over the 50-step alphabet (+ functions after <=1 step), every atom as $[?()] and $.a[?()], every A&&B / A||B over 24 atoms, 13 function filters (about 4.6k); alphabet: calls on 4 documents (first success, same-shape documents with another outcome, other outcome classes) + X (unrelated Retrieve cycling both pools) + W (scribble on the last result); all histories of length <=3 in plain mode and <=2 in accessor mode; pool answers <=1 deviation",
-			"thorough": "5 documents, histories of length <=4 (accessor mode <=3), pool answers <=1 deviation (<=2 for paths of <=1 step)",
+			"quick":    "paths: <=2 steps over the 50-step alphabet (+ functions after <=1 step), every atom as $[?()] and $.a[?()], every A&&B / A||B over 24 atoms, 13 function filters (about 4.6k); alphabet: calls on 4 documents (first success, same-shape documents with another outcome, other outcome classes) + X (unrelated Retrieve cycling both pools) + W (scribble on the last result); M (the caller edits a document object in place into another document of the same shape, after a call on it and before another); all histories of length <=3 in plain mode and <=2 in accessor mode; pool answers <=1 deviation; for the single-step paths and the 24 reduced atoms also all histories of length 4..6 over 3 documents + X with default pool answers",
+			"thorough": "5 documents, histories of length <=4 (accessor mode <=3), pool answers <=1 deviation (<=2 for paths of <=1 step); long histories up to length 8",
 		},
 		New: newC05,
 		Replay: func(cs map[string]interface{}) (bool, string) {
@@ -399,8 +506,16 @@ func init() {
 				cfg = &j.env.CfgAcc
 			}
 			refs := map[int]string{}
+			var used []int
 			for _, op := range hist {
-				if op >= 0 {
+				if d, e, isM := c05IsM(op); isM {
+					used = append(used, d, e)
+				} else if op >= 0 {
+					used = append(used, op)
+				}
+			}
+			for _, op := range used {
+				{
 					fp := impl.Parse(pathText, cfg)
 					if fp.F == nil {
 						return false, "does not parse"
